@@ -76,6 +76,15 @@ def run_history(seed, k, res):
     def tol_of(cond):
         return 1e-13 * cond * max(1.0, float(np.linalg.norm(M.xbase)) / spread, far / spread)
 
+    def tol_rel(cond):
+        """For identities that involve only the STORED data and the points relative to the base point (interpolation, least squares,
+        Lagrange): nothing there may depend on how far the base point is from the origin - only on the conditioning of the set and
+        on how far the base point is from the set itself (cancellation in J.(y - xopt) written as J.y - J.xopt)."""
+        p_ = M.npt()
+        dm_ = float(np.sqrt(max(max(float(np.sum((M.xpt(j) - M.xopt()) ** 2)) for j in range(p_)), 1e-300)))
+        off = max(float(np.linalg.norm(M.xpt(j))) for j in range(p_)) / dm_
+        return 1e-13 * cond * max(1.0, off)
+
     def check_lagrange(tag):
         p, D, cond = geometry()
         if not np.isfinite(cond) or cond > 1e8:
@@ -87,7 +96,7 @@ def run_history(seed, k, res):
             fail("exception", "lagrange_gradient raised %r" % (e,))
             return False
         L = np.array([[cs[a] + gs[:, a] @ D[j] for j in range(p)] for a in range(p)])
-        tol = tol_of(cond) * 10
+        tol = tol_rel(cond) * 10
         st["lagrange_checks"] = st.get("lagrange_checks", 0) + 1
         if p <= n + 1:
             err = float(np.max(np.abs(L - np.eye(p))))
@@ -138,7 +147,7 @@ def run_history(seed, k, res):
             pred = np.array([M.model_value(M.xpt(j), d_based_at_xopt=False, with_const_term=True) for j in range(p)])
             r = Fv - pred
             scaleF = float(np.max(np.abs(Fv))) + 1e-300
-            tol = tol_of(cond)
+            tol = tol_rel(cond)
             st["fits_checked"] = st.get("fits_checked", 0) + 1
             st["regime|%s" % ("growing" if p < n + 1 else ("interpolation" if p == n + 1 else "regression"))] = st.get(
                 "regime|%s" % ("growing" if p < n + 1 else ("interpolation" if p == n + 1 else "regression")), 0) + 1
